@@ -47,9 +47,17 @@ type blockSpec struct {
 	Txs    []int `json:"txs"`
 }
 
+// one operation of a scenario: delivery of block B through AddBlockOnChain (K = "D"), or a fork
+// switch of the sync processor to the fork A -> ... -> B (K = "F")
+type opSpec struct {
+	K string `json:"k"`
+	A int    `json:"a"`
+	B int    `json:"b"`
+}
+
 type scenario struct {
 	Tree  []blockSpec `json:"tree"`
-	Order []int       `json:"order"`
+	Order []opSpec    `json:"order"`
 	Kind  string      `json:"kind,omitempty"`
 }
 
@@ -357,23 +365,47 @@ func treeEvent(sc *scenario) map[string]interface{} {
 func deliveries(tr *vutil.Trace, sc *scenario, from int, crashAt int) {
 	chain := core.GetBlockChain()
 	count := 0
-	var cur, curIdx int
+	var cur, curIdx, curA int
+	curK := "D"
 	db.VerifOnWrite = func(op string, key []byte, size int) {
 		count++
 		if crashAt > 0 && count == crashAt {
-			tr.Emit(map[string]interface{}{"event": "Crash", "b": cur, "idx": curIdx, "k": count, "op": op, "phase": "deliver"})
+			tr.Emit(map[string]interface{}{"event": "Crash", "b": cur, "a": curA, "kind": curK, "idx": curIdx, "k": count, "op": op, "phase": "deliver"})
 			tr.Close()
 			os.Exit(77)
 		}
 	}
 	for i := from; i < len(sc.Order); i++ {
-		cur, curIdx = sc.Order[i], i
+		op := sc.Order[i]
+		cur, curIdx, curK, curA = op.B, i, op.K, op.A
 		before := count
+		if op.K == "F" {
+			// path a -> ... -> b
+			path := []int{}
+			for x := op.B; x != op.A && x != 0; x = sc.Tree[x-1].Parent {
+				path = append([]int{x}, path...)
+			}
+			branch := []*types.Block{}
+			for _, x := range path {
+				branch = append(branch, copyBlock(blocks[x]))
+				for _, t := range sc.Tree[x-1].Txs {
+					service.GetTransactionPool().AddTransaction(txs[t])
+				}
+			}
+			tr.Emit(map[string]interface{}{"event": "Calling", "k": "F", "a": op.A, "b": op.B, "idx": i})
+			ok := false
+			if chain.HasBlockByHash(blocks[op.A].Header.Hash) {
+				ok = core.VerifForkSwitch(copyBlock(blocks[op.A]), branch)
+			}
+			tr.Emit(map[string]interface{}{"event": "Fork", "a": op.A, "b": op.B, "idx": i, "ok": ok, "writes": count - before,
+				"state": project()})
+			continue
+		}
 		// the transactions of the block reach the pool before the block does
 		for _, t := range sc.Tree[cur-1].Txs {
 			service.GetTransactionPool().AddTransaction(txs[t])
 		}
-		tr.Emit(map[string]interface{}{"event": "Calling", "b": cur, "idx": i})
+		tr.Emit(map[string]interface{}{"event": "Calling", "k": "D", "a": 0, "b": cur, "idx": i})
 		res := chain.AddBlockOnChain(copyBlock(blocks[cur]))
 		name, ok := resNames[res]
 		if !ok {
@@ -556,15 +588,20 @@ func batch(args []string) {
 			}
 			died := func(phase, detail string, sofar [][]byte) []byte {
 				var c struct {
-					B   int `json:"b"`
-					Idx int `json:"idx"`
+					B   int    `json:"b"`
+					A   int    `json:"a"`
+					K   string `json:"k"`
+					Idx int    `json:"idx"`
 				}
 				for _, l := range sofar {
 					if bytes.Contains(l, []byte(`"event":"Calling"`)) {
 						json.Unmarshal(l, &c)
 					}
 				}
-				b, _ := json.Marshal(map[string]interface{}{"event": "Died", "phase": phase, "detail": detail, "b": c.B, "idx": c.Idx})
+				if c.K == "" {
+					c.K = "D"
+				}
+				b, _ := json.Marshal(map[string]interface{}{"event": "Died", "phase": phase, "detail": detail, "b": c.B, "a": c.A, "kind": c.K, "idx": c.Idx})
 				return b
 			}
 			// reopen runs a restart (+ the remaining deliveries); a death of the real code during
